@@ -37,20 +37,45 @@ func fileDB(path string) *sql.DB {
 
 const synced = "Schemas are synced, no changes to be made."
 
-func cliLoop(dir, script string) *cliResult {
+func cliLoop(dir, script, history string) *cliResult {
 	r := &cliResult{}
 	os.MkdirAll(dir, 0o755)
 	db0 := fileDB(filepath.Join(dir, "db0"))
 	r.createErr = execScript(db0, script)
-	db0.Close()
 	if r.createErr != nil {
+		db0.Close()
 		return r
 	}
 	add := func(c, m string) { r.syms = append(r.syms, viol{c, short(m, 300)}) }
 	insp := func(extra ...string) clirun.Result {
 		return clirun.Run(dir, nil, append([]string{"schema", "inspect", "--url", "sqlite://db0"}, extra...)...)
 	}
+	// history: the CLI's output before and after the engine's bookkeeping (rows, ANALYZE, ...)
+	var before, beforeSQL clirun.Result
+	if history != "" && history != "fresh" {
+		db0.Close()
+		before, beforeSQL = insp(), insp("--format", "{{ sql . }}")
+		db0 = fileDB(filepath.Join(dir, "db0"))
+		applyHistory(db0, history)
+	}
+	raw0 := []string{}
+	if raw, err := rawCatalogue(db0); err == nil {
+		raw0 = rawCanon(raw, false)
+	}
+	db0.Close()
+	rawOf := func(name string) []string {
+		db := fileDB(filepath.Join(dir, name))
+		defer db.Close()
+		raw, err := rawCatalogue(db)
+		if err != nil {
+			return []string{"error " + err.Error()}
+		}
+		return rawCanon(raw, false)
+	}
 	h1 := insp()
+	if history != "" && history != "fresh" && before.Exit == 0 && h1.Exit == 0 && before.Stdout != h1.Stdout {
+		add("history-unstable", "`schema inspect` prints different HCL before / after "+history)
+	}
 	if h1.Exit != 0 {
 		add("inspect-error", h1.Stderr)
 		return r
@@ -73,6 +98,9 @@ func cliLoop(dir, script string) *cliResult {
 		if d1.Exit != 0 || d2.Exit != 0 || strings.TrimSpace(d1.Stdout) != synced || strings.TrimSpace(d2.Stdout) != synced {
 			add("hcl-db-diff", "db0->db1: "+d1.Stdout+d1.Stderr+" ; db1->db0: "+d2.Stdout+d2.Stderr)
 		}
+		if d := firstDiff(raw0, rawOf("db1")); d != "" {
+			add("hcl-raw-catalogue", d)
+		}
 	}
 	// the HCL export as a desired state normalised on a dev database (sql/internal/sqlx/dev.go)
 	if ap.Exit == 0 {
@@ -92,6 +120,9 @@ func cliLoop(dir, script string) *cliResult {
 	if q2.Stdout != q1.Stdout {
 		add("sql-unstable", "second `schema inspect --format sql` prints different SQL")
 	}
+	if history != "" && history != "fresh" && beforeSQL.Exit == 0 && beforeSQL.Stdout != q1.Stdout {
+		add("history-unstable", "`schema inspect --format sql` prints different SQL before / after "+history)
+	}
 	db2 := fileDB(filepath.Join(dir, "db2"))
 	err := execScript(db2, q1.Stdout)
 	db2.Close()
@@ -102,6 +133,9 @@ func cliLoop(dir, script string) *cliResult {
 		d2 := clirun.Run(dir, nil, "schema", "diff", "--from", "sqlite://db2", "--to", "sqlite://db0")
 		if d1.Exit != 0 || d2.Exit != 0 || strings.TrimSpace(d1.Stdout) != synced || strings.TrimSpace(d2.Stdout) != synced {
 			add("sql-diff", "db0->db2: "+d1.Stdout+d1.Stderr+" ; db2->db0: "+d2.Stdout+d2.Stderr)
+		}
+		if d := firstDiff(raw0, rawOf("db2")); d != "" {
+			add("sql-raw-catalogue", d)
 		}
 	}
 	// ... and the SQL export applied by the CLI itself (desired state = SQL file, replayed on a dev database)
@@ -115,6 +149,9 @@ func cliLoop(dir, script string) *cliResult {
 			d2 := clirun.Run(dir, nil, "schema", "diff", "--from", "sqlite://db3", "--to", "sqlite://db0")
 			if d1.Exit != 0 || d2.Exit != 0 || strings.TrimSpace(d1.Stdout) != synced || strings.TrimSpace(d2.Stdout) != synced {
 				add("sql-diff", "via schema apply: db0->db3: "+d1.Stdout+d1.Stderr+" ; db3->db0: "+d2.Stdout+d2.Stderr)
+			}
+			if d := firstDiff(raw0, rawOf("db3")); d != "" {
+				add("sql-raw-catalogue", "via schema apply: "+d)
 			}
 		}
 	}
@@ -144,8 +181,14 @@ func runCLI(w *out.W, tier string) {
 	for i := 0; i < n; i++ {
 		r := rng.New(seed*0x9E3779B97F4A7C15 ^ uint64(i)*0xD1B54A32D192ED03 ^ 0xC11)
 		o := genOpts{nameLevel: i % 3, atlasSafe: i%2 == 0}
+		hist := histories[i%len(histories)]
 		a := genSchemaAST(r, o)
-		c := &loopCase{id: fmt.Sprintf("c%05d", i), how: "hand", ast: a}
+		if hist == "autoinc-rows-analyze" {
+			for try := 0; try < 40 && !a.Tags["autoinc"]; try++ {
+				a = genSchemaAST(r, o)
+			}
+		}
+		c := &loopCase{id: fmt.Sprintf("c%05d", i), how: "hand", ast: a, history: hist}
 		c.styleSeed = r.U64()
 		st := newStyle(rng.New(c.styleSeed), a)
 		c.script = strings.Join(st.script(a), ";\n") + ";"
@@ -159,7 +202,7 @@ func runCLI(w *out.W, tier string) {
 		go func(i int, c *cc) {
 			defer wg.Done()
 			defer func() { <-sem }()
-			c.res = cliLoop(filepath.Join(base, fmt.Sprintf("k%d", i)), c.lc.script)
+			c.res = cliLoop(filepath.Join(base, fmt.Sprintf("k%d", i)), c.lc.script, c.lc.history)
 			if c.res.createErr == nil && len(c.res.syms) > 0 {
 				c.lc.run() // in-process loop + attribution
 			}
@@ -177,7 +220,8 @@ func runCLI(w *out.W, tier string) {
 			tags = c.lc.ast.tags()
 		}
 		w.ImplOnly(c.lc.id, fmt.Sprintf("cli viol=%d %s", len(c.res.syms), short(c.lc.script, 300)))
-		w.NonTrivial(tags + "|" + c.lc.id[:1])
+		w.NonTrivial(tags + "|" + c.lc.history + "|" + c.lc.id[:1])
+		w.Count("history:" + c.lc.history)
 		for _, v := range c.res.syms {
 			cause := "cli-only"
 			if c.lc.res != nil {
@@ -186,13 +230,16 @@ func runCLI(w *out.W, tier string) {
 					inproc[x.class] = true
 				}
 				alias := map[string][]string{
-					"hcl-db-diff":     {"hcl-db-diff", "hcl-diff"},
-					"hcl-apply-error": {"hcl-apply-error", "hcl-eval-error", "hcl-marshal-error"},
-					"hcl-eval-error":  {"hcl-eval-error", "hcl-apply-error", "hcl-marshal-error"},
-					"inspect-error":   {"inspect-error", "hcl-marshal-error"},
-					"sql-plan-error":  {"sql-plan-error"},
-					"sql-exec-error":  {"sql-exec-error"},
-					"sql-diff":        {"sql-diff"},
+					"hcl-db-diff":       {"hcl-db-diff", "hcl-diff"},
+					"hcl-apply-error":   {"hcl-apply-error", "hcl-eval-error", "hcl-marshal-error"},
+					"hcl-eval-error":    {"hcl-eval-error", "hcl-apply-error", "hcl-marshal-error"},
+					"inspect-error":     {"inspect-error", "hcl-marshal-error"},
+					"sql-plan-error":    {"sql-plan-error"},
+					"sql-exec-error":    {"sql-exec-error"},
+					"sql-diff":          {"sql-diff"},
+					"hcl-raw-catalogue": {"hcl-raw-catalogue"},
+					"sql-raw-catalogue": {"sql-raw-catalogue"},
+					"history-unstable":  {"history-unstable"},
 				}
 				for _, k := range alias[v.class] {
 					if inproc[k] {
@@ -206,7 +253,7 @@ func runCLI(w *out.W, tier string) {
 				}
 			}
 			w.Count("viol:" + cause + "/cli-" + v.class)
-			w.Violation(c.lc.id, cause, fmt.Sprintf("symptom=cli-%s how=cli %s ;; sql=%s", v.class, v.msg, short(c.lc.script, 700)))
+			w.Violation(c.lc.id, cause, fmt.Sprintf("symptom=cli-%s how=cli history=%s %s ;; sql=%s", v.class, c.lc.history, v.msg, short(c.lc.script, 700)))
 		}
 	}
 }
